@@ -19,6 +19,9 @@ EXPL = ("For every method of utilities.Bitarray, every access to the byte array 
 FILES = ["utilities.py"]
 CLS = "Bitarray"
 ARR = "_bitarray"
+# the three single-bit writers may delegate to one another (item store -> set_bit / clear_bit, or set_bit -> self[idx] = 1): each is judged with
+# the others looked through, so that the accesses and guards of the whole delegation chain are seen
+WRITERS = ("__setitem__", "set_bit", "clear_bit")
 
 
 def _reads(expr):
@@ -33,6 +36,33 @@ def _byte_and_mask(idx):
     return byte, mask
 
 
+def _inrange_bit_read(i, value, size_f):
+    """index i is x // 8 for x an element of range(size) produced by an unfiltered comprehension / loop, and the value that contains the read
+    tests exactly bit x % 8 of that byte as 0 / 1"""
+    if not (i[0] == "bin" and i[1] == "//" and i[3] == C(8) and i[2][0] == "it"):
+        return False
+    x = i[2]
+    dom = strip_epochs(x[2])
+    if dom not in (("call", ("g", "range"), (size_f,), ()), ("call", ("g", "range"), (C(0), size_f), ())):
+        return False
+    v = strip_epochs(norm(rowform(value)))
+    for n in walk(v):
+        if n[0] == "comp" and any(g[1] == x[1] and g[3] for g in n[3]):
+            return False  # a filtered comprehension skips elements
+    byte, mask = _byte_and_mask(x)
+    rd = strip_epochs(("sub", ("f", SELF, ARR, 0), byte, 0))
+    probe = norm(("bin", "&", rd, mask))
+    good = [("phi", ("cmp", "==", probe, C(0)), C(0), C(1)), ("phi", ("cmp", "!=", probe, C(0)), C(1), C(0)),
+            ("cmp", "!=", probe, C(0)), ("phi", probe, C(1), C(0)), ("phi", ("un", "not", probe), C(0), C(1)),
+            norm(("bin", "&", ("bin", ">>", rd, ("bin", "%", x, C(8))), C(1)))]
+    good = [strip_epochs(norm(rowform(g))) for g in good]
+    reads = [n for n in walk(v) if n[0] == "sub" and outer_field(n[1]) == ARR]
+    covered = [n for n in walk(v) if n in good]
+    # every read of the array in the value sits inside one of the accepted probes
+    inside = sum(1 for g in covered for n in walk(g) if n[0] == "sub" and outer_field(n[1]) == ARR)
+    return bool(covered) and inside >= len(reads)
+
+
 def count_maintained(prog, fld):
     """is self.<fld> kept equal to the number of set bits by EVERY writer of the byte array?  (the only way a remembered population
     count can be returned instead of a recount).  Decision table per returning path: a set-store only where the bit was clear, with
@@ -41,7 +71,7 @@ def count_maintained(prog, fld):
     for f in own_methods(prog, CLS):
         if f.prop:
             continue
-        ps = paths(prog, CLS, f, force_inline=("set_bit", "clear_bit") if f.src_name == "__setitem__" else ())
+        ps = paths(prog, CLS, f, force_inline=WRITERS if f.src_name in WRITERS else ())
         for p in ps:
             if p.exit[0] != "return":
                 continue
@@ -125,6 +155,7 @@ def check(prog, rep, tier):
     crange = cell_range_fn(prog, CLS)
     size_f = ("f", SELF, "_size", 0)
     guarded = []  # functions with parameter-indexed accesses
+    inrange_readers = set()  # functions that read the bits of every element of range(size) directly
     direct_access = {}
     for f in own_methods(prog, CLS):
         if f.prop or f.src_name == "__init__":
@@ -132,7 +163,7 @@ def check(prog, rep, tier):
         if f.src_name.startswith("_") and not f.src_name.endswith("__"):
             continue  # a private helper is judged inside the public methods that call it (it is looked through there)
         # the item store may delegate to the guarded single-bit writers: look through them so that their accesses (and guards) are seen
-        ps = paths(prog, CLS, f, force_inline=("set_bit", "clear_bit") if f.src_name == "__setitem__" else ())
+        ps = paths(prog, CLS, f, force_inline=WRITERS if f.src_name in WRITERS else ())
         rep.analysed(f, CLS, len(ps))
         accesses = []  # (path, kind, index, value, conds, loc)
         for p in ps:
@@ -312,6 +343,12 @@ def check(prog, rep, tier):
             L = ("f", SELF, "_size_bytes", 0)
             for (p, kind, index, value, conds, loc, e) in accesses:
                 i = strip_epochs(index)
+                if f.src_name != "clear" and kind == "read" and value is not None and _inrange_bit_read(i, value, size_f):
+                    # the bit of an element of range(size), read with the byte / mask addressing: the domain itself is the guard
+                    # (0 <= x < size for every x the loop produces), so the access is in range without passing through check_bit
+                    rep.ok("C20.full-range", f"{CLS}.{f.src_name}: bit x read as (byte[x//8] & 1<<(x%8)) != 0 for every x of range(size)")
+                    inrange_readers.add(f.src_name)
+                    continue
                 ok = i[0] == "it" and strip_epochs(i[2]) == ("call", ("g", "range"), (L,), ())
                 if not ok and i[0] == "it" and strip_epochs(i[2]) == ("call", ("g", "range"), (("call", ("g", "len"), (("f", SELF, ARR, 0),), ()),), ()):
                     ok = True  # range(len(self._bitarray)): every position of the allocation
@@ -352,7 +389,7 @@ def check(prog, rep, tier):
             bytewise_count = strip_epochs(g_[2]) in pops
     if bytewise_count:
         allowed.add("num_bits_set")
-    extra = [n for n in direct_access if n not in allowed]
+    extra = [n for n in direct_access if n not in allowed and not (n in inrange_readers and rep.rules["C20.full-range"]["violations"] == 0)]
     if extra:
         rep.bad("C20.who-may-access", f"{CLS}.{extra[0]}", "direct access", f"{extra} access the byte array without the guard", K.module.relpath + ":1")
     else:
@@ -369,6 +406,8 @@ def check(prog, rep, tier):
         f = prog.method(CLS, name)
         ps = paths(prog, CLS, f)
         good = False
+        if name in inrange_readers and name in direct_access and all(a[1] == "read" for a in direct_access[name]):
+            good = True
         if name == "num_bits_set" and bytewise_count:
             if rep.rules["C20.guard"]["violations"] == 0:
                 rep.ok("C20.full-range", f"{CLS}.{name}: population count of every byte of the array (padding bits are never set: all writers are guarded)")
@@ -450,7 +489,7 @@ def check(prog, rep, tier):
             rep.bad("C20.alloc", f"{CLS}.__init__", f"_size = {nshow(fs.get('_size', ('unk','missing')))}", "_size is not the size argument", init.where())
 
 
-from ..selftest import Mutant, del_stmt, replace_expr, replace_stmt, swap_binop, swap_cmp
+from ..selftest import Mutant, del_stmt, replace_expr, replace_stmt, swap_binop, swap_cmp, seq
 
 _U = "utilities.py"
 MUTANTS = [
@@ -478,6 +517,14 @@ MUTANTS = [
     Mutant("check_bit mask uses idx % 7", _U, replace_expr("Bitarray", "check_bit", "idx % 8", "idx % 7"), rule="C20.addressing"),
     Mutant("size_bytes = size // 8", _U, replace_expr("Bitarray", "__init__", "math.ceil(size / 8)", "size // 8"), rule="C20.alloc"),
     Mutant("guard deleted in clear_bit", _U, del_stmt("Bitarray", "clear_bit", "if idx < 0"), rule="C20."),
+    Mutant("as_string reads each bit of range(size) directly (same result)", _U, replace_expr("Bitarray", "as_string", "self.check_bit(x)",
+           "(0 if (self._bitarray[x // 8] & (1 << (x % 8))) == 0 else 1)"), expect="silent"),
+    Mutant("as_string reads directly over range(size + 1)", _U, seq(replace_expr("Bitarray", "as_string", "self.check_bit(x)",
+           "(0 if (self._bitarray[x // 8] & (1 << (x % 8))) == 0 else 1)"), replace_expr("Bitarray", "as_string", "range(self._size)", "range(self._size + 1)")), rule="C20."),
+    Mutant("num_bits_set reads directly with mask x % 7", _U, replace_expr("Bitarray", "num_bits_set", "self.check_bit(x)",
+           "(0 if (self._bitarray[x // 8] & (1 << (x % 7))) == 0 else 1)"), rule="C20."),
+    Mutant("set_bit delegates to the item store (same result)", _U, replace_stmt("Bitarray", "set_bit", "self._bitarray[b] = ", "self[idx] = 1"), expect="silent"),
+    Mutant("set_bit delegates to the item store with 0", _U, replace_stmt("Bitarray", "set_bit", "self._bitarray[b] = ", "self[idx] = 0"), rule="C20.addressing"),
     Mutant("guard spelled idx > size - 1 (same meaning)", _U, replace_expr("Bitarray", "set_bit", "idx >= self._size", "idx > self._size - 1"), expect="silent"),
     Mutant("guard spelled not 0 <= idx (same meaning)", _U, replace_expr("Bitarray", "check_bit", "idx < 0", "not idx >= 0"), expect="silent"),
 ]
